@@ -460,7 +460,8 @@ def data() -> dict:
               'init_written': shape['written'], 'gate_reserved': shape['gate_reserved'],
               'gate_checks_existing': shape['gate_checks_existing'], 'gate_refs': shape['gate_refs'],
               'field_is_instance': inst_body, 'template_suffix': template_suffix(),
-              'index_top_level_only': loader_shape() in ('top', 'top_any'), 'chain_ends_at_any': loader_shape() == 'top_any',
+              'index_top_level_only': loader_shape() in ('top_any', 'loadable'), 'chain_ends_at_any': loader_shape() in ('top_any', 'loadable'),
+              'index_checks_loadable': loader_shape() == 'loadable',
               'loader_shape': loader_shape()})
     return d
 
@@ -554,10 +555,8 @@ PIN_ENV = [('src/nunavut/jinja/environment.py', 'CodeGenEnvironment._add_to_envi
 PIN_LOADER_TOP = PIN_LOADER + [('src/nunavut/jinja/loaders.py', 'DSDLTemplateLoader._type_templates')]
 
 
-LOADER_METHODS = {'all': ['__init__', '_filter_template_list_by_suffix', '_type_to_template_internal', 'get_source', 'get_template_sets',
-                          'get_templates', 'list_templates', 'type_to_template']}
-LOADER_METHODS['top'] = sorted(LOADER_METHODS['all'] + ['_type_templates'])
-LOADER_METHODS['top_any'] = LOADER_METHODS['top']
+LOADER_METHODS = ['__init__', '_filter_template_list_by_suffix', '_type_templates', '_type_to_template_internal', 'get_source',
+                  'get_template_sets', 'get_templates', 'list_templates', 'type_to_template']
 
 
 def loader_methods() -> typing.List[str]:
@@ -578,19 +577,19 @@ def loader_methods() -> typing.List[str]:
 
 
 def loader_shape() -> typing.Optional[str]:
-    """which of the shapes the hand model of the loader knows the code has:
-    'all'     = type_to_template indexes every listed template by its stem (sub-directories included; F-LOOKUP-SUBDIR-NAME),
-    'top'     = only templates directly under a templates directory (`_type_templates`, fix af716bd),
-    'top_any' = 'top' + the walk does not go beyond pydsdl.Any (design_notes/C16_chain_ends_at_any_fix.patch),
-    None      = none of them, or the class has other members than the model knows (fail closed)"""
+    """which of the ACCEPTED shapes the pinned loader functions have (pre-fix shapes are no longer accepted: reverting af716bd or
+    52035ba fails closed):
+    'top_any'  = only top-level templates are indexed (af716bd) and the walk stops at pydsdl.Any (52035ba),
+    'loadable' = 'top_any' + names the file-system loader cannot load (dangling links) are not indexed
+                 (design_notes/C16_dangling_link_fix.patch),
+    None       = neither, or the class has other members than the model knows (fail closed)"""
     from . import shape_pin
-    for shape, name, targets in (('all', 'c16_loader', PIN_LOADER), ('top', 'c16_loader_toplevel', PIN_LOADER_TOP),
-                                 ('top_any', 'c16_loader_toplevel_any', PIN_LOADER_TOP)):
+    for shape, name in (('top_any', 'c16_loader_toplevel_any'), ('loadable', 'c16_loader_loadable')):
         try:
-            cur = '\n'.join('## %s:%s\n%s' % (p, q, shape_pin.normalized_dump(p, q)) for p, q in targets) + '\n'
+            cur = '\n'.join('## %s:%s\n%s' % (p, q, shape_pin.normalized_dump(p, q)) for p, q in PIN_LOADER_TOP) + '\n'
             with open(os.path.join(shape_pin.PINS, name + '.txt'), encoding='utf-8') as f:
                 if f.read() == cur:
-                    return shape if loader_methods() == LOADER_METHODS[shape] else None
+                    return shape if loader_methods() == LOADER_METHODS else None
         except (OSError, KeyError, SyntaxError, AssertionError, StopIteration, Unsupported):
             continue
     return None
@@ -624,4 +623,125 @@ def pin_c16_wiring():
     return shape_pin.check_pin('c16_wiring', PIN_WIRING)
 
 
-GENERATORS = {'lookup': gen_lookup, 'pin_c16_loader': pin_c16_loader, 'pin_c16_env': pin_c16_env, 'pin_c16_wiring': pin_c16_wiring}
+# ---- class surface pin ---------------------------------------------------------------------------------------------------------
+SURFACE_CLASSES = [('src/nunavut/jinja/environment.py', 'CodeGenEnvironment'),
+                   ('src/nunavut/jinja/environment.py', 'CodeGenEnvironmentBuilder'),
+                   ('src/nunavut/jinja/loaders.py', 'DSDLTemplateLoader'),
+                   ('src/nunavut/jinja/__init__.py', 'CodeGenerator'),
+                   ('src/nunavut/jinja/__init__.py', 'DSDLCodeGenerator'),
+                   ('src/nunavut/jinja/jinja2/loaders.py', 'BaseLoader'),
+                   ('src/nunavut/jinja/jinja2/loaders.py', 'FileSystemLoader'),
+                   ('src/nunavut/jinja/jinja2/loaders.py', 'PackageLoader')]
+STORE_ATTRS = ('globals', 'filters', 'tests')
+DYNAMIC_NAMES = ('setattr', 'delattr', '__dict__', 'vars', 'globals', 'locals', 'exec', 'eval', '__setitem__', '__delitem__', '__setattr__',
+                 '__class__', '__bases__', '__getattribute__', '__getattr__')
+
+
+def _mentions(node: ast.AST, attrs: typing.Sequence[str], names: typing.Sequence[str]) -> bool:
+    for n in ast.walk(node):
+        if isinstance(n, ast.Attribute) and (n.attr in attrs or n.attr in names):
+            return True
+        if isinstance(n, ast.Name) and n.id in names:
+            return True
+    return False
+
+
+def _innermost_stmts(fn: ast.AST) -> typing.List[ast.stmt]:
+    out = []
+    for n in ast.walk(fn):
+        if isinstance(n, ast.stmt) and not isinstance(n, (ast.FunctionDef, ast.AsyncFunctionDef, ast.ClassDef, ast.If, ast.For, ast.While,
+                                                            ast.With, ast.Try)):
+            out.append(n)
+        elif isinstance(n, (ast.If, ast.While)):
+            out.append(ast.Expr(value=n.test))
+        elif isinstance(n, ast.For):
+            out.append(ast.Expr(value=ast.Tuple(elts=[n.target, n.iter], ctx=ast.Load())))
+        elif isinstance(n, ast.With):
+            out += [ast.Expr(value=i.context_expr) for i in n.items]
+    return out
+
+
+def surface() -> dict:
+    """what the hand models and the function pins silently rely on, for every class on the lookup/environment path:
+    bases / keywords / decorators, the ORDERED member names (a name defined twice fails closed: Python binds the last definition,
+    a pin could read the first), module-level statements that mention the class (monkey patching), and EVERY statement of the class
+    that mentions .globals / .filters / .tests in any form (subscript store, update, setdefault, pop, attribute assignment, alias)
+    or a dynamic-access name (setattr, __dict__, vars, globals, exec, ...)"""
+    out = {}
+    mods: typing.Dict[str, ast.Module] = {}
+    for rel, cname in SURFACE_CLASSES:
+        mod = mods.setdefault(rel, gen.parse_repo(rel))
+        classes = [n for n in mod.body if isinstance(n, ast.ClassDef) and n.name == cname]
+        if len(classes) != 1:
+            raise Unsupported('%s: class %s defined %d times at module level' % (rel, cname, len(classes)))
+        cls = classes[0]
+        members = []
+        for n in cls.body:
+            if isinstance(n, (ast.FunctionDef, ast.AsyncFunctionDef, ast.ClassDef)):
+                accessor = [x.attr for x in n.decorator_list if isinstance(x, ast.Attribute) and isinstance(x.value, ast.Name)
+                            and x.value.id == n.name and x.attr in ('setter', 'getter', 'deleter')]
+                members.append(n.name + ('.' + accessor[0] if accessor else ''))   # @x.setter def x: part of the property x
+            elif isinstance(n, (ast.Assign, ast.AnnAssign, ast.AugAssign)):
+                members += [t.id for t in ast.walk(n) if isinstance(t, ast.Name) and isinstance(t.ctx, ast.Store)]
+            elif not (isinstance(n, ast.Expr) and isinstance(n.value, ast.Constant)) and not isinstance(n, ast.Pass):
+                raise Unsupported('%s.%s: unexpected statement %s in the class body' % (rel, cname, type(n).__name__))
+        if len(set(members)) != len(members):
+            raise Unsupported('%s.%s: a member is defined more than once: %s' % (rel, cname, sorted(m for m in set(members) if members.count(m) > 1)))
+        entry = {'bases': [ast.dump(b) for b in cls.bases], 'keywords': [ast.dump(k) for k in cls.keywords],
+                 'decorators': [ast.dump(x) for x in cls.decorator_list], 'members': members,
+                 'member_decorators': {n.name: [ast.dump(x) for x in n.decorator_list] for n in cls.body
+                                       if isinstance(n, (ast.FunctionDef, ast.AsyncFunctionDef)) and n.decorator_list},
+                 'module_mentions': [ast.dump(st) for st in mod.body
+                                     if not isinstance(st, (ast.ClassDef, ast.FunctionDef, ast.AsyncFunctionDef, ast.Import, ast.ImportFrom))
+                                     and any(isinstance(n, ast.Name) and n.id == cname for n in ast.walk(st))]}
+        if '/jinja2/' not in rel:
+            stores = []
+            for n in cls.body:
+                if isinstance(n, (ast.FunctionDef, ast.AsyncFunctionDef)):
+                    for st in _innermost_stmts(n):
+                        if _mentions(st, STORE_ATTRS, DYNAMIC_NAMES):
+                            stores.append('%s: %s' % (n.name, ast.dump(st)))
+            entry['store_and_dynamic_statements'] = stores
+        out['%s:%s' % (rel, cname)] = entry
+    # functions and classes defined after the pinned classes could rebind them: no second module-level binding of a pinned class name
+    for rel, mod in mods.items():
+        bound = [t.id for st in mod.body if isinstance(st, (ast.Assign, ast.AnnAssign, ast.AugAssign)) for t in ast.walk(st)
+                 if isinstance(t, ast.Name) and isinstance(t.ctx, ast.Store)]
+        bound += [n.name for n in mod.body if isinstance(n, (ast.FunctionDef, ast.AsyncFunctionDef))]
+        clash = sorted(set(bound) & {c for r, c in SURFACE_CLASSES if r == rel})
+        if clash:
+            raise Unsupported('%s: pinned class name(s) rebound at module level: %s' % (rel, clash))
+    return out
+
+
+SURFACE_PIN = os.path.join(os.path.dirname(os.path.abspath(__file__)), 'pins', 'c16_surface.json')
+
+
+def pin_c16_surface():
+    out = os.path.join(gen.GEN_DIR, 'Gen_Pin_c16_surface.v')
+    head = gen.HEADER % ', '.join('%s:%s' % t for t in SURFACE_CLASSES)
+    try:
+        cur = surface()
+        with open(SURFACE_PIN, encoding='utf-8') as f:
+            pinned = json.load(f)
+    except (Unsupported, OSError, SyntaxError, ValueError) as ex:
+        gen.write_if_changed(out, head + '(* class surface pin failed closed: %s *)\n' % str(ex).replace('*)', '* )'))
+        return False, 'class surface pin failed closed: %s' % ex
+    if cur != pinned:
+        diff = sorted(k for k in set(cur) | set(pinned) if cur.get(k) != pinned.get(k))
+        gen.write_if_changed(out, head + '(* class surface changed: %s *)\n' % ', '.join(diff).replace('*)', '* )'))
+        return False, 'class surface pin: %s changed (bases/decorators/members/module-level mentions/stores to globals-filters-tests)' % ', '.join(diff)
+    gen.write_if_changed(out, head + 'Definition pin_c16_surface_ok : bool := true.\n')
+    return True, 'ok'
+
+
+GENERATORS = {'pin_c16_surface': pin_c16_surface, 'lookup': gen_lookup, 'pin_c16_loader': pin_c16_loader, 'pin_c16_env': pin_c16_env, 'pin_c16_wiring': pin_c16_wiring}
+
+
+if __name__ == '__main__':
+    import sys
+    if sys.argv[1:] == ['--update-surface']:
+        with open(SURFACE_PIN, 'w', encoding='utf-8') as _f:
+            json.dump(surface(), _f, indent=1, sort_keys=True)
+            _f.write('\n')
+        print('pinned c16_surface')
